@@ -605,8 +605,10 @@ func buildDecl(block []string, fn, rel, path string) *harnessDecl {
 				d.Cfg.UFs[n] = symgo.UFCfg{Injective: inj, As: as}
 			}
 		case head == "go":
-			if len(rest) > 0 {
+			if len(rest) == 1 {
 				d.Cfg.GoPolicy = rest[0]
+			} else if len(rest) >= 2 {
+				d.Cfg.GoRules = append(d.Cfg.GoRules, [2]string{rest[1], rest[0]})
 			}
 		case head == "ctx":
 			if len(rest) > 0 {
